@@ -78,7 +78,7 @@ namespace bloch::compiler {
         [[nodiscard]] std::unique_ptr<ConstructorDeclaration> parseConstructorDeclaration(
             Visibility vis, const std::string& className);
         [[nodiscard]] std::unique_ptr<DestructorDeclaration> parseDestructorDeclaration(
-            Visibility vis);
+            Visibility vis, const std::string& className = "");
         [[nodiscard]] Visibility parseVisibility();
         [[nodiscard]] std::vector<std::string> parseQualifiedName();
         [[nodiscard]] std::unique_ptr<VariableDeclaration> parseVariableDeclaration(
